@@ -21,6 +21,7 @@ let () =
        Printf.printf "CASE %d %s\n" k (if issued >= 2 then "stress" else "trivial");
        if get "dup" <> "0" then Printf.printf "FAIL %d callback-duplicate %s\n" k r;
        if get "missing" <> "0" then Printf.printf "FAIL %d callback-missing %s\n" k r;
+       if get "lostwake" <> "0" && get "lostwake" <> "?" then Printf.printf "FAIL %d waitempty-lost-wakeup %s concurrent waiter(s) not released although the queue drained: %s\n" k (get "lostwake") r;
        (match split_on ':' (get "waitempty") with
         | [rc; outstanding] ->
           let n = (try int_of_string outstanding with _ -> 0) in
